@@ -92,7 +92,7 @@ fn get(cfg: &SvcCfg, host: &str, path: &str) -> Seen {
 }
 
 fn bucket_names(acc: &mut Acc, tier: Tier) {
-    let mut names = strings_upto(&['a', 'A', '1', '.', '-', '_'], tier.pick(6, 7));
+    let mut names = strings_upto(&['a', 'A', '1', '.', '-', '_'], tier.pick(7, 8));
     // boundary lengths and special shapes
     for n in [2usize, 3, 62, 63, 64] {
         names.push("a".repeat(n));
@@ -322,7 +322,7 @@ pub fn run(ctx: &Ctx) -> (Acc, Report) {
     bucket_names(&mut acc, ctx.tier);
     keys_and_hosts(&mut acc);
     constructors(&mut acc);
-    let n = ctx.tier.pick(6, 7);
+    let n = ctx.tier.pick(7, 8);
     let rep = Report {
         level: "exploration",
         rule: format!("bucket names: all strings of length 0..{n} over {{a,A,1,.,-,_}} plus boundary lengths, IP shapes and reserved prefixes/suffixes, each path-style and virtual-hosted-style, judged by a sandwich (breaks a core rule => refused; valid under the complete published rules => accepted and resolved to itself; in between not judged). Keys: 35 keys (slashes, dots, blanks, + % ? # non-ASCII, literal escapes, 1023/1024/1025 bytes) x host parser {{none, single, multi(1..4)}} x hosts {{each base domain, bucket.domain, three hosts per domain that end with its text without belonging to it, IPv4, IPv4:port, [v6]:port, [v6]}}: backend's (bucket,key) must equal the client's in both styles. Constructors: all ordered selections of <=3 of 11 domains. Distinct by id."),
